@@ -384,15 +384,16 @@ func judgeCopy(cc copyCase, rate, burst int64) sched.Judge {
 				failf("b", "incomplete-body", "payload of %d bytes within the limit: %d bytes forwarded", cc.size, len(body))
 			}
 		}
-		// (c) rate bound: at every write the cumulative volume stays below burst + rate * elapsed + one refill
+		// (c) rate bound: at every write the cumulative volume stays below burst + rate * elapsed, elapsed counted
+		// from the moment the copy was started (the bucket and its refill ticker are created after that)
 		if cc.streaming {
 			var cum int64
 			for _, wr := range r.w.writes {
 				cum += int64(wr.n)
 				el := wr.at - r.start
-				bound := burst + rate*el/1e9 + rate*125/1000 + 1
+				bound := burst + rate*el/1e9
 				if cum > bound {
-					failf("c", "rate-bound", "after %d ms %d bytes had been forwarded, bound is burst %d + rate %d/s * elapsed + one refill = %d", el/1e6, cum, burst, rate, bound)
+					failf("c", "rate-bound", "after %d ms %d bytes had been forwarded, bound is burst %d + rate %d/s * elapsed = %d", el/1e6, cum, burst, rate, bound)
 					break
 				}
 			}
